@@ -26,7 +26,7 @@ type PoolMon struct {
 	preBurnRate   sdk.Dec
 	prePd         sdk.Int
 
-	Refills, BlockRewards, PartLeftover, PartDist, Bonus int
+	Refills, BlockRewards, PartLeftover, PartDist, Bonus, LeftoverMoves int
 }
 
 func (m *PoolMon) wit(s *Sim, step int) map[string]any {
@@ -116,6 +116,16 @@ func (m *PoolMon) AfterBlock(s *Sim, b *BlockRes) {
 				}
 			}
 		}
+		// what accumulated in the leftover pool during the last 24 h is for the NEW month: it may only join the
+		// distribution pool after the old month's remainder was burned
+		for i, f := range flows {
+			if f.Kind == "transfer" && f.From == lo && f.To == vd {
+				m.LeftoverMoves++
+				if iFillV >= 0 && i < iFillV || iBurnV >= 0 && i < iBurnV {
+					m.Run.Violation("leftover-moved-before-burn", "validators", fmt.Sprintf("block %d: %s moved from the leftover pool into the distribution pool before the burn / quota", b.Height, f.Amount), m.wit(s, b.Step))
+				}
+			}
+		}
 		check("validators", iBurnV, iFillV, m.preBurnRate)
 		check("providers", iBurnP, iFillP, sdk.OneDec())
 		m.Run.Nontrivial(fmt.Sprintf("%s:refill:%d", m.Hist, b.Height))
@@ -195,6 +205,7 @@ func TestC21(t *testing.T) {
 		run.Count("participation_expected_leftover(<=24h)", pm.PartLeftover)
 		run.Count("participation_expected_distribution(>24h)", pm.PartDist)
 		run.Count("refill_blocks_with_bonus_payouts", pm.Bonus)
+		run.Count("leftover_pool_moves_at_refill", pm.LeftoverMoves)
 		if h == 0 {
 			run.Sample(map[string]any{"history": 0, "tail": s.LogTail(10)})
 		}
@@ -204,6 +215,7 @@ func TestC21(t *testing.T) {
 	run.Require("participation within 24h of the refill", run.Counter("participation_expected_leftover(<=24h)") > 0)
 	run.Require("participation more than 24h before the refill", run.Counter("participation_expected_distribution(>24h)") > 0)
 	run.Require("bonus payouts at a refill", run.Counter("refill_blocks_with_bonus_payouts") > 0)
+	run.Require("leftover pool non-empty at a refill", run.Counter("leftover_pool_moves_at_refill") > 0)
 	run.Finish("histories with subscriptions, relays, IPRPC and months of block time; the mock bank's ordered operation log (hook) is turned into flows per block: every block reward <= validators distribution pool at that moment; at each refill the burn on each distribution pool equals floor(rate x balance at that moment) (rate 1 for providers) and precedes the quota floor(allocation / months left); bonus payouts of the month <= providers distribution pool at month end; each validators_and_community_fund event must name the leftover pool iff the next refill is <= 24 h away (distribution pool otherwise); distinct non-trivial = refills and participation events judged", 30,
 		"flows are reconstructed from the mock bank log: a sub directly followed by an equal add is a transfer, a lone sub a burn")
 }
